@@ -487,6 +487,10 @@ func (w *nw02) mk(kind, idx int) node.Node {
 					outs[i] = packet.New(types.NewInt(o))
 				}
 			}
+			if intOf(in)%3 == 1 {
+				// more packets than the node has out-ports: the surplus one goes nowhere and must not be waited for
+				outs = append(outs, packet.New(types.NewInt(424242)))
+			}
 			return outs, nil
 		})
 		n.Out("out[1]")
